@@ -327,6 +327,26 @@ where
     | .error => (.pcreError, h1)
     | .goOn _ => (.goOn, h1)
 
+/-- what stat() (following symbolic links, as stat_cache_path_stat() does) says about
+    r->physical.path -/
+inductive FsKind
+  | missing      -- stat fails: ENOENT, ENOTDIR (path below a regular file, or non-directory + '/'), dangling link
+  | regular      -- S_ISREG
+  | directory    -- S_ISDIR
+  | other        -- fifo, socket, device
+deriving Repr, DecidableEq
+
+/-- mod_rewrite_physical(): url.rewrite-if-not-file / url.rewrite-repeat-if-not-file.  The rule list
+    (`rules`, rewrite-if-not-file rules below `repeatIdx`) is processed by process_rewrite_rules()
+    unless another module has already taken the request (`handlerSet`), the list is empty, or the
+    physical path is a *regular file*. -/
+def rwPhysical (handlerSet : Bool) (kind : FsKind) (repeatIdx : Nat) (cond : Option Caps) (url : UrlParts)
+    (rules : List (Bytes × MatchRes)) (h : Option RwState) : RwRes × Option RwState :=
+  if handlerSet then (.goOn, h)
+  else if rules.isEmpty then (.goOn, h)
+  else if kind = .regular then (.goOn, h)
+  else rwCall repeatIdx cond url rules h
+
 /-- how a request leaves the rewrite stage -/
 inductive RwFinal
   | served (target : Bytes) (rewrites : Nat)     -- request continues with this request-target
